@@ -1,0 +1,64 @@
+//go:build verif
+// +build verif
+
+package veriftrace
+
+import (
+	"encoding/json"
+	"fmt"
+	"os"
+	"path/filepath"
+	"sync"
+)
+
+// With VERIF_TRACE=<dir> set, Emit appends one NDJSON line per event to
+// <dir>/trace-<pid>.ndjson. All packages share one mutex and one sequence number, so the file is
+// a total order of the events of the process.
+
+var (
+	mu   sync.Mutex
+	file *os.File
+	seq  int
+)
+
+func init() {
+	dir := os.Getenv("VERIF_TRACE")
+	if dir == "" {
+		return
+	}
+	f, err := os.OpenFile(filepath.Join(dir, fmt.Sprintf("trace-%d.ndjson", os.Getpid())), os.O_CREATE|os.O_WRONLY|os.O_APPEND, 0o644)
+	if err == nil {
+		file = f
+	}
+}
+
+// Enabled reports whether events are recorded.
+func Enabled() bool { return file != nil }
+
+// Emit records one event.
+func Emit(ev map[string]interface{}) {
+	if file == nil {
+		return
+	}
+	mu.Lock()
+	defer mu.Unlock()
+	seq++
+	ev["seq"] = seq
+	b, _ := json.Marshal(ev)
+	_, _ = file.Write(append(b, '\n'))
+}
+
+// Locked runs f while holding the trace mutex (for hooks that must read state and emit atomically).
+func Locked(f func(emit func(ev map[string]interface{}))) {
+	if file == nil {
+		return
+	}
+	mu.Lock()
+	defer mu.Unlock()
+	f(func(ev map[string]interface{}) {
+		seq++
+		ev["seq"] = seq
+		b, _ := json.Marshal(ev)
+		_, _ = file.Write(append(b, '\n'))
+	})
+}
